@@ -165,6 +165,26 @@ fn reference(svc: &Sx, total: &[u8]) -> Sx {
     sx::tagged("ref", vec![sx::atom(status), sx::tagged("out", split_replies(&out)), sx::bs(&up)])
 }
 
+/// How long does a trivial round trip to this server take right now?  (On a loaded machine every latency
+/// threshold of a case is widened by a multiple of it: a verdict "late" is about waiting for another
+/// connection, not about the scheduler.)
+fn probe_ms(addr: &str) -> u64 {
+    let t = Instant::now();
+    if let Some(mut c) = connect(addr) {
+        c.set_timeout(Duration::from_millis(5000));
+        let _ = c.write_all(b"{\"method\":\"org.varlink.service.GetInfo\"}\0");
+        let mut b = [0u8; 4096];
+        let mut got = Vec::new();
+        while !got.contains(&0) {
+            match c.read(&mut b) {
+                Ok(0) | Err(_) => break,
+                Ok(k) => got.extend_from_slice(&b[..k]),
+            }
+        }
+    }
+    t.elapsed().as_millis() as u64
+}
+
 fn run_conc(l: &[Sx]) -> Sx {
     let transport = l[1].as_atom().unwrap().to_string();
     let initial = l[2].as_usize().unwrap();
@@ -174,7 +194,7 @@ fn run_conc(l: &[Sx]) -> Sx {
     // long enough that a peer which is merely slow (a loaded machine) is told apart from one that waited for the
     // stalled peer to go on
     let stall_ms: u64 = 1500;
-    let has_stall = clients.iter().any(|c| matches!(c.as_list().unwrap()[1].as_atom(), Some("stall") | Some("flood")));
+    let has_stall = clients.iter().any(|c| matches!(c.as_list().unwrap()[1].as_atom(), Some("stall") | Some("flood") | Some("mute")));
     let addr = fresh_addr(&transport);
     let stop = Arc::new(AtomicBool::new(false));
     let built = build_service_opts(&svc, true);
@@ -196,6 +216,7 @@ fn run_conc(l: &[Sx]) -> Sx {
             .is_ok()
         })
     };
+    let slack = (probe_ms(&addr).saturating_sub(5) * 8).min(4000);
     let mut handles = Vec::new();
     for c in &clients {
         let cl = c.as_list().unwrap().to_vec();
@@ -233,6 +254,10 @@ fn run_conc(l: &[Sx]) -> Sx {
                 return (true, Vec::new(), 0);
             }
             let mut first_reply_ms: Option<u64> = None;
+            if kind == "mute" {
+                // connected, and not a byte for a long while
+                thread::sleep(Duration::from_millis(stall_ms));
+            }
             for (i, ch) in chunks.iter().enumerate() {
                 if conn.write_all(ch).is_err() {
                     break;
@@ -313,8 +338,8 @@ fn run_conc(l: &[Sx]) -> Sx {
         // waits for another connection to finish)
         // (a peer that had to wait for the stalled one is done only after it went on, one that had to wait for a
         // long-lived one gets its first reply only after 1.2 s: the thresholds leave a second for a loaded machine)
-        let late = (has_stall && (kind == "half" || kind == "dropmid") && elapsed > stall_ms - 400)
-            || (kind == "hold" && elapsed > 900);
+        let late = (has_stall && (kind == "half" || kind == "dropmid") && elapsed > stall_ms - 400 + slack.min(300))
+            || (kind == "hold" && elapsed > 900 + slack.min(250));
         let total: Vec<u8> = cl[3].as_list().unwrap()[1..].iter().flat_map(|x| x.as_bytes().unwrap()).collect();
         let (replies, up) = split_up(&got);
         obs.push(sx::tagged(
@@ -387,6 +412,9 @@ fn run_timing(l: &[Sx]) -> Sx {
         None
     };
     let stale_wait = has_opt("stale");
+    // a handled signal delivered to the thread that runs listen() (a wait that is interrupted is not a wait that is over)
+    let signal_at: Option<u64> = l.iter().skip(6).filter_map(|m| m.as_list()).find(|m| m.first().and_then(|a| a.as_atom()) == Some("signal"))
+        .and_then(|m| m.get(1).and_then(|x| x.as_usize())).map(|x| x as u64);
     // make sure the socket exists before the clock starts: bind happens inside listen(), so start
     // the clock when the path appears
     let t_server = {
@@ -424,6 +452,26 @@ fn run_timing(l: &[Sx]) -> Sx {
         thread::sleep(Duration::from_millis(60));
     }
     let t0 = Instant::now();
+    if let Some(at) = signal_at {
+        use std::os::unix::thread::JoinHandleExt;
+        extern "C" fn noop(_: libc::c_int) {}
+        unsafe {
+            let mut sa: libc::sigaction = std::mem::zeroed();
+            sa.sa_sigaction = noop as usize;
+            sa.sa_flags = 0;
+            libc::sigemptyset(&mut sa.sa_mask);
+            libc::sigaction(libc::SIGUSR1, &sa, std::ptr::null_mut());
+        }
+        let pt = t_server.as_pthread_t();
+        thread::spawn(move || {
+            for k in 0..3u64 {
+                thread::sleep(Duration::from_millis(if k == 0 { at } else { 150 }));
+                unsafe {
+                    libc::pthread_kill(pt, libc::SIGUSR1);
+                }
+            }
+        });
+    }
     let fired = Arc::new(AtomicBool::new(false));
     if let Some(s) = stop_at {
         let stop = stop.clone();
@@ -487,7 +535,8 @@ fn run_timing(l: &[Sx]) -> Sx {
     }
     // an observation horizon (cases whose server is expected to outlive the case: it is then left behind,
     // blocked in accept, and goes away with the harness process)
-    let horizon: Option<u64> = l.get(6).and_then(|m| m.as_list()).and_then(|m| m.get(1)).and_then(|m| m.as_usize()).map(|x| x as u64);
+    let horizon: Option<u64> = l.iter().skip(6).filter_map(|m| m.as_list()).find(|m| m.first().and_then(|a| a.as_atom()) == Some("horizon"))
+        .and_then(|m| m.get(1).and_then(|x| x.as_usize())).map(|x| x as u64);
     if let Some(h) = horizon {
         let end = t0 + Duration::from_millis(h);
         while !t_server.is_finished() && Instant::now() < end {
@@ -613,6 +662,7 @@ fn run_bound(l: &[Sx]) -> Sx {
         None => return sx::tagged("bobs", vec![sx::atom("no-server")]),
     }
     thread::sleep(Duration::from_millis(80));
+    let slack = (probe_ms(&addr).saturating_sub(5) * 8).min(4000);
     if let Some((k, gap)) = burst {
         let mut bs = Vec::new();
         for _ in 0..k {
@@ -680,7 +730,7 @@ fn run_bound(l: &[Sx]) -> Sx {
             (first, t0.elapsed().as_millis() as u64)
         }));
     }
-    let mut obs = Vec::new();
+    let mut obs = vec![sx::list(vec![sx::atom("slack"), sx::nat(slack as usize)])];
     for h in hs {
         let (first, closed) = h.join().unwrap_or((None, 0));
         obs.push(sx::list(vec![sx::atom("c"), first.map(|f| sx::nat(f as usize)).unwrap_or_else(|| sx::atom("-")), sx::nat(closed as usize)]));
@@ -987,6 +1037,16 @@ impl Suite for ListenSuite {
             cases.push(timing_case(0, Some(0), 1, 4, &[], "flag-set-before-start"));
             cases.push(timing_case(2, Some(450), 1, 4, &[], "flag-before-timeout"));
             cases.push(timing_case(1, None, 1, 1, &[(100, 600), (200, 100)], "queued-behind-max"));
+            // signals while the acceptor waits; a stop flag together with a long idle timeout
+            for (idle, stop) in [(2usize, None), (1, Some(60_000usize)), (0, Some(900))] {
+                let mut c = timing_case(idle, stop, 1, 4, &[(100, 100)], "signals-while-waiting");
+                if let Sx::List(l) = &mut c.input {
+                    l.push(sx::tagged("signal", vec![sx::nat(300)]));
+                }
+                cases.push(c);
+            }
+            cases.push(timing_case(60, Some(450), 1, 4, &[(150, 100)], "flag-with-a-long-idle-timeout"));
+            cases.push(timing_case(3600, Some(450), 1, 4, &[], "flag-with-a-long-idle-timeout"));
             // a stale entry at the socket path; two listeners sharing one stop flag
             for (idle, stop) in [(1usize, None), (0, Some(450usize)), (2, Some(450))] {
                 let mut c = timing_case(idle, stop, 1, 4, &[(150, 100)], "stale-entry-at-the-socket-path");
@@ -1100,6 +1160,30 @@ impl Suite for ListenSuite {
             cases.push(Case {
                 input: sx::tagged("listen-conc", vec![sx::atom(t), sx::nat(2), cfg.sx.clone(), sx::list(cl)]),
                 tags: vec!["stalled-peer-beside-prompt-peers".into()],
+            });
+        }
+        // (b1) a peer that connects and says nothing for a long while, beside prompt peers
+        for t in ["tcp", "unix"] {
+            let cfg = &cfgs[1];
+            let mut clients = Vec::new();
+            tok += 1;
+            let mut tt = serde_json::to_vec(&serde_json::json!({"method":"org.varlink.service.GetInfo","parameters":{"token": format!("t{}z", tok)}})).unwrap();
+            tt.push(0);
+            clients.push(client_sx("mute", 0, &[tt.clone()], &tt));
+            for k in 0..4usize {
+                let mut reqs = Vec::new();
+                for _ in 0..2 {
+                    tok += 1;
+                    reqs.push(gen_request(&mut rng, cfg, &format!("t{}z", tok)));
+                }
+                let total = stream_of(&reqs);
+                clients.push(client_sx("half", 100 + 40 * k, &[total.clone()], &total));
+            }
+            let mut cl = vec![sx::atom("clients")];
+            cl.extend(clients);
+            cases.push(Case {
+                input: sx::tagged("listen-conc", vec![sx::atom(t), sx::nat(2), cfg.sx.clone(), sx::list(cl)]),
+                tags: vec!["silent-peer-beside-prompt-peers".into()],
             });
         }
         // (b2) a peer flooding the server with requests it never reads the replies of, beside prompt peers
